@@ -571,6 +571,11 @@ func (d *hoDriver) height() error {
 				d.fill = 0
 			}
 		}
+		if d.opts.Mode == "determinism" || d.run%3 == 0 {
+			// replica A also serves queries (every gRPC query handler of the four modules) between blocks, replica B never does:
+			// reading state must not change what the next block computes
+			project.QueryAnswers(a.C, []uint64{1, 2, 3}, nil)
+		}
 		return d.committed("commit", a.C)
 	}
 }
